@@ -166,6 +166,58 @@ Theorem C12_save_ladder_nifti : forall ks k lext conv,
 Proof. exact save_ladder_nifti. Qed.
 Print Assumptions C12_save_ladder_nifti.
 
+(* header sniffing.  features collects everything the may_contain_header functions look at in the
+   sniffed bytes hb, mc is each of them as a decision function (checked against the code on ~8000
+   real and mutated header blocks each run), writer_sig k says what a header written by class k
+   looks like, canon is the class itself except that the two classes with the plain Analyze
+   sniffer are read by the SPM2 class before them.  For every class of all_image_classes, every
+   extension it loads by, any case mix, any own suffix, any root and ANY header bytes with the
+   writer's signature, the first-match loop of load() returns that canonical class.  Stated for
+   every table passing the boolean check, instantiated for the generated one. *)
+Theorem C12_load_picks_writer_any_table : forall ks intents n k root e e' s' hb,
+  table_ok ks -> check_load_table ks = true ->
+  nth_error ks n = Some k -> In e (vexts k) -> lower e' = lower e -> suffix_ok k s' ->
+  writer_sig k (features intents hb) = true ->
+  load_by_header ks intents (root ++ e' ++ s') hb = Ok (canon ks n k).
+Proof. exact load_picks_writer. Qed.
+Print Assumptions C12_load_picks_writer_any_table.
+
+Theorem C12_load_picks_writer : forall n k root e e' s' hb,
+  nth_error all_classes n = Some k -> In e (vexts k) -> lower e' = lower e -> suffix_ok k s' ->
+  writer_sig k (features cifti_intents hb) = true ->
+  load_by_header all_classes cifti_intents (root ++ e' ++ s') hb = Ok (canon all_classes n k).
+Proof. exact load_picks_writer_all. Qed.
+Print Assumptions C12_load_picks_writer.
+
+(* the table checks behind it, and: every intent code of the CIFTI block 3000..3099, read in the
+   byte order the header guesser picks, is accepted by the regenerated _valid_intent_code table *)
+Theorem C12_load_table_checks :
+  check_load_table all_classes = true
+  /\ forall hb, 3000 <= dec_s (nifti2_big_endian hb) (take 4 (drop 504 hb)) < 3100 ->
+               fcifti (features cifti_intents hb) = true.
+Proof. exact (conj all_classes_load_table cifti_intent_feature). Qed.
+Print Assumptions C12_load_table_checks.
+
+(* "the same class" is false for AnalyzeImage (and Spm99AnalyzeImage): load returns the SPM2 class *)
+Theorem C12_analyze_shadowed_refuted :
+  exists n k, nth_error all_classes n = Some k /\ canon all_classes n k <> Some n
+    /\ canon all_classes n k = Some 5%nat /\ nth_error all_classes 5 = Some k_Spm2AnalyzeImage.
+Proof. exact analyze_shadowed. Qed.
+Print Assumptions C12_analyze_shadowed_refuted.
+
+(* the routes theorem for every single-file class of the generated table *)
+Theorem C12_routes_equal_per_class :
+  forall (Img : Type) (serialize : Img -> list Z) (compress decompress : option nat -> list Z -> list Z)
+         (keys : list str),
+  (forall o b, decompress o (compress o b) = b) ->
+  forall k nm e, In k all_classes -> ftypes k = [(nm, e)] -> fkind k <> 2 ->
+  forall img root e' s' fs, lower e' = lower e -> suffix_ok k s' ->
+  exists fs', to_filename Img serialize compress keys k img (root ++ e' ++ s') fs = Ok (Some fs')
+    /\ read_file decompress keys fs' (root ++ e' ++ s') = Some (to_bytes Img serialize img)
+    /\ to_stream Img serialize img = to_bytes Img serialize img.
+Proof. exact routes_per_class. Qed.
+Print Assumptions C12_routes_equal_per_class.
+
 (* non-vacuity: NIfTI-1 pair, root with a directory, a space and a dot, Mixed-case header
    extension, Mixed-case .gz: hypotheses hold, the header is the name given, the image follows *)
 Example C12_nonvacuous :
